@@ -287,15 +287,25 @@ impl<H, T> HeaderSliceWithLengthProtected<H, T> {
     }
 }
 
+// Ordered as the header followed by the slice. The recorded length only breaks ties, so that
+// the ordering agrees with the derived `PartialEq` (which compares it) on every value.
 impl<H: PartialOrd, T: ?Sized + PartialOrd> PartialOrd for HeaderSlice<HeaderWithLength<H>, T> {
     fn partial_cmp(&self, other: &Self) -> Option<Ordering> {
-        (&self.header.header, &self.slice).partial_cmp(&(&other.header.header, &other.slice))
+        (&self.header.header, &self.slice, &self.header.length).partial_cmp(&(
+            &other.header.header,
+            &other.slice,
+            &other.header.length,
+        ))
     }
 }
 
 impl<H: Ord, T: ?Sized + Ord> Ord for HeaderSlice<HeaderWithLength<H>, T> {
     fn cmp(&self, other: &Self) -> Ordering {
-        (&self.header.header, &self.slice).cmp(&(&other.header.header, &other.slice))
+        (&self.header.header, &self.slice, &self.header.length).cmp(&(
+            &other.header.header,
+            &other.slice,
+            &other.header.length,
+        ))
     }
 }
 
